@@ -157,6 +157,16 @@ def prob_history(mk, sname, history, convention="plain", two_systems=False, effi
                 cur = len(live) - 1
             elif op == "view_ro":
                 live.append(st.copy(read_only=True))
+            elif op == "set_pos_ro":
+                # a read-only copy taken right after an assignment, i.e. with an EMPTY cache; continue on the read-only copy
+                # (not in MUTATORS: listed explicitly by the harnesses that use it)
+                st.pos = fresh_vec("q")
+                if mk.symbolic:
+                    for _, info in systems:
+                        if "metric_model" in info:
+                            info["metric_model"].require_valid(mk, list(st.pos))
+                live.append(st.copy(read_only=True))
+                cur = len(live) - 1
             elif op == "pickle":
                 if mk.symbolic:
                     raise Skip("pickling is exercised in the concrete pass")
@@ -171,6 +181,10 @@ def prob_history(mk, sname, history, convention="plain", two_systems=False, effi
         if efficiency and op in ("copy", "copy_ro", "view_ro", "switch", "set_dir"):
             after = counts()
             eff.append((f"after '{op}' (no dependency changed) the sweep evaluates no user function", before, after))
+        if efficiency:
+            c0 = counts()
+            sweep(f"repeat after step {step + 1}")
+            eff.append((f"a repeated sweep after step {step + 1} ('{op}') evaluates no user function", c0, counts()))
     for msg, a, b in eff:
         extra = {k: b[k] - a.get(k, 0) for k in b if b[k] != a.get(k, 0)}
         ok = not extra
